@@ -157,7 +157,7 @@ func runC37(r *core.Run, forged bool) {
 				}
 				var raw []byte
 				switch rule {
-				case "", "csr-other-ia", "csr-no-ia", "csr-bad-selfsig", "tamper.payload", "tamper.signature", "tamper.truncate", "tamper.certs":
+				case "", "reencode", "csr-other-ia", "csr-no-ia", "csr-bad-selfsig", "tamper.payload", "tamper.signature", "tamper.truncate", "tamper.certs":
 					// the client side is the real request builder
 					signer := trust.Signer{PrivateKey: c.key.priv, Algorithm: signed.ECDSAWithSHA256, IA: c.ia,
 						Chain: c.certs, SubjectKeyID: c.key.skid, Expiration: now.Add(1000 * day)}
@@ -191,7 +191,7 @@ func runC37(r *core.Run, forged bool) {
 				}
 				// transport with tamper faults
 				switch rule {
-				case "tamper.payload", "tamper.signature", "tamper.certs":
+				case "tamper.payload", "tamper.signature", "tamper.certs", "reencode":
 					ci, err := protocol.ParseContentInfo(raw)
 					if err != nil {
 						infra("parse own cms: %v", err)
@@ -229,8 +229,8 @@ func runC37(r *core.Run, forged bool) {
 
 				// ground truth
 				chainOK, how := w.active(c, now)
-				valid := rule == "" && chainOK
-				dontCare := rule == "" && how == "grace" && !pred.win.contains(now)
+				valid := benign(rule) && chainOK
+				dontCare := benign(rule) && how == "grace" && !pred.win.contains(now)
 				got, err := verifier.VerifyCMSSignedRenewalRequest(ctx, raw)
 				r.Logf("  request chain=%s (defect %q, %s) rule=%q -> accepted=%v want=%v", c.name, c.defect, how, rule, err == nil, valid)
 				r.Covered(fmt.Sprintf("req:%s:%s:%s:%v", rule, c.defect, how, err == nil))
